@@ -121,6 +121,8 @@ func genC15(g *Gen) {
 		hist := []string{"NewFrom(" + descTree(init) + ")"}
 		g.Add(c15Snapshot(root, false, hist))
 		nops := 1 + r.Intn(5)
+		var fresh []*ucfg.Config
+		var freshAt []addrT
 		for j := 0; j < nops; j++ {
 			name := names[r.Intn(len(names))]
 			idx := []int{-1, -1, 0, 1, 2, 3}[r.Intn(6)]
@@ -148,9 +150,34 @@ func genC15(g *Gen) {
 					}
 					err := root.Merge(src, opts...)
 					d = fmt.Sprintf("Merge(%s, %s) -> %v", descTree(src), p.name, err)
+				case k < 11 && len(fresh) > 0 && r.P(1, 2):
+					// a config attached before is taken out of its place and attached somewhere else
+					fi := r.Intn(len(fresh))
+					var e1 error
+					how := "Remove"
+					if r.Bool() {
+						_, e1 = root.Remove(freshAt[fi].name, freshAt[fi].idx, sep)
+					} else {
+						how = "Set"
+						e1 = applySet(root, freshAt[fi].name, freshAt[fi].idx, "overwritten", []ucfg.Option{sep})
+					}
+					err := root.SetChild(name, idx, fresh[fi], sep)
+					if err == nil {
+						freshAt[fi] = addrT{name, idx}
+					}
+					d = fmt.Sprintf("%s(%q,%d) -> %v; SetChild(%q,%d,the config that was there) -> %v", how, freshAt[fi].name, freshAt[fi].idx, e1, name, idx, err)
+				case k < 11 && len(fresh) > 0 && r.P(1, 3):
+					// a config that was attached before (it may have been removed or overwritten since)
+					fi := r.Intn(len(fresh))
+					err := root.SetChild(name, idx, fresh[fi], sep)
+					d = fmt.Sprintf("SetChild(%q,%d,the config attached earlier #%d) -> %v", name, idx, fi, err)
 				case k < 11:
 					sub, _ := ucfg.NewFrom(randMap(r, tc, 1))
 					err := root.SetChild(name, idx, sub, sep)
+					if err == nil {
+						fresh = append(fresh, sub)
+						freshAt = append(freshAt, addrT{name, idx})
+					}
 					d = fmt.Sprintf("SetChild(%q,%d,fresh) -> %v", name, idx, err)
 				default:
 					from := names[r.Intn(len(names))]
@@ -175,10 +202,48 @@ func genC15(g *Gen) {
 	}
 	// diff
 	for i := 0; i < g.N/2; i++ {
-		ta := randMap(r, tc, 0)
-		tb, _ := mutateTree(r, tc, ta, 0).(map[string]interface{})
+		var ta, tb interface{}
+		ma := randMap(r, tc, 0)
+		mb, _ := mutateTree(r, tc, ma, 0).(map[string]interface{})
 		if r.P(1, 8) {
-			tb = ta
+			mb = ma
+		}
+		ta, tb = ma, mb
+		if r.P(1, 5) {
+			// list roots (and lists directly inside them) of more than ten entries: the order of
+			// the indices is not the order of their texts
+			n := 9 + r.Intn(6)
+			mk := func() []interface{} {
+				l := make([]interface{}, n)
+				for k := range l {
+					switch r.Intn(4) {
+					case 0:
+						l[k] = nil
+					case 1:
+						l[k] = map[string]interface{}{"v": randScalar(r)}
+					default:
+						l[k] = randScalar(r)
+					}
+				}
+				return l
+			}
+			la := mk()
+			lb := append([]interface{}{}, la...)
+			for k := 0; k < 1+r.Intn(3); k++ {
+				j := []int{8, 9, 9, 10, r.Intn(n)}[r.Intn(5)] % n
+				if r.Bool() {
+					lb[j] = nil
+				} else {
+					lb[j] = map[string]interface{}{"v": randScalar(r), "w": randScalar(r)}
+				}
+			}
+			if r.Bool() {
+				la, lb = lb, la
+			}
+			ta, tb = la, lb
+			if r.P(1, 3) {
+				ta, tb = []interface{}{la, "x"}, []interface{}{lb, "x"}
+			}
 		}
 		oldC, err1 := ucfg.NewFrom(ta)
 		newC, err2 := ucfg.NewFrom(tb)
